@@ -153,7 +153,7 @@ PROPS = {
         "run_module": "Model.Graph Model.Walk Model.RunC15 Model.RunC02 Model.RunC14 Model.Prune Model.RunC17 Model.Builder Model.RunC01 Model.Jsr Model.RunJsr Model.Decl Model.RunDecl Model.RunJsrAll",
         "run_fn": "run_c01j",
         "pinned_theorems": ["C01_complete", "C01_settled_unfold", "C01_single_entry_step", "C01_recorded_dep", "C01_nothing_pending",
-                            "C01_registry_complete", "C01_registry_settled_unfold", "C01_one_entry_per_text", "C01_static_wins", "C01_declaration_without_extras", "C01_registry_sound_refuted", "C01_b1_sound_refuted"],
+                            "C01_registry_complete", "C01_registry_settled_unfold", "C01_one_entry_per_text", "C01_static_wins", "C01_declaration_without_extras", "C01_registry_sound_refuted", "C01_b1_sound_refuted", "C01_b1_judge_sound", "C01_registry_judge_sound"],
         "rule": ("proviso worlds of 2-11 modules (JS/TS/JSX/TSX/d.ts/mjs/mts/JSON by extension or content-type header; "
                  "static/named/type-only/dynamic/export-star/export-type/@deno-types/reference types+path/self-types/"
                  "x-typescript-types/JSDoc/import-type imports; json/text/bytes/bogus attributes as a function of the "
